@@ -184,7 +184,8 @@ func GetParameterSetsFromByteStream(data []byte) (spss, ppss [][]byte) {
 	n := len(data)
 	currNaluStart := -1
 	totSize := 0
-	for i := 0; i < n-4; i++ {
+	videoFound := false
+	for i := 0; i < n-3; i++ {
 		if data[i] == 0 && data[i+1] == 0 && data[i+2] == 1 {
 			if currNaluStart > 0 {
 				currNaluEnd := i
@@ -209,8 +210,20 @@ func GetParameterSetsFromByteStream(data []byte) (spss, ppss [][]byte) {
 			currNaluStart = i + 3
 			nextNaluType := GetNaluType(data[currNaluStart])
 			if nextNaluType < 6 { // Video NALU types are below 6
+				videoFound = true
 				break
 			}
+		}
+	}
+	if currNaluStart > 0 && !videoFound {
+		// The last NAL unit extends to the end of the data
+		switch GetNaluType(data[currNaluStart]) {
+		case NALU_SPS:
+			spss = append(spss, data[currNaluStart:n])
+			totSize += n - currNaluStart
+		case NALU_PPS:
+			ppss = append(ppss, data[currNaluStart:n])
+			totSize += n - currNaluStart
 		}
 	}
 	psData := make([]byte, totSize)
